@@ -142,6 +142,7 @@ def ev_expr(e, env, conf):
     if k == 'list': return list(e[1])
     if k == 'evname': return env['_evname']
     if k == 'evis': return env.get('_evname') == e[1]
+    if k == 'evdata': return env['_evdata'][e[1]]
     raise ValueError(e)
 
 
@@ -159,6 +160,7 @@ def rn_expr(e, dm):
     if k == 'or': return ('%s or %s' if dm != 'promela' else '%s || %s') % (rn_expr(e[1], dm), rn_expr(e[2], dm))    # deliberately without parentheses around the whole
     if k == 'list': return ('{%s}' if dm == 'lua' else '[%s]') % ','.join(str(x) for x in e[1])
     if k == 'evname': return '_event.name'
+    if k == 'evdata': return '_event.data.%s' % e[1]
     if k == 'evis':        # lua only: true while the event bound to _event (the last one dequeued, matched or not) has this name
         assert dm == 'lua', 'evis is a lua-only condition'
         return "_event ~= nil and _event.name == '%s'" % e[1]
@@ -167,7 +169,7 @@ def rn_expr(e, dm):
 
 def expr_uses_data(e):
     if e is None: return False
-    if e[0] in ('var', 'const', 'add', 'sub', 'eq', 'lt', 'not', 'true', 'or', 'evis'):
+    if e[0] in ('var', 'const', 'add', 'sub', 'eq', 'lt', 'not', 'true', 'or', 'evis', 'evdata'):
         if e[0] in ('in',): return False
         if e[0] == 'not': return True   # the null datamodel only knows In()
         return True
@@ -189,6 +191,8 @@ def rn_actions(acts, dm, ind):
         elif a[0] == 'raise': out.append('%s<raise event="%s"/>' % (ind, a[1]))
         elif a[0] == 'send': out.append('%s<send event="%s"/>' % (ind, a[1]))
         elif a[0] == 'sendint': out.append('%s<send event="%s" target="#_internal"/>' % (ind, a[1]))
+        elif a[0] == 'sendp':        # ('sendp', event, [(param name, expr), ...]): the values travel in the event (_event.data.<name>)
+            out.append('%s<send event="%s">%s</send>' % (ind, a[1], ''.join('<param name="%s" expr="%s"/>' % (n, esc(rn_expr(x, dm))) for n, x in a[2])))
         elif a[0] == 'assign': out.append('%s<assign location="%s" expr="%s"/>' % (ind, a[1], esc(rn_expr(a[2], dm))))
         elif a[0] == 'if':
             first = True
@@ -740,7 +744,7 @@ def gen_late_chart(seed, logexpr=True):
     return ch, hist
 
 
-def decorate(ch, rng, errors=True, evcond=False):
+def decorate(ch, rng, errors=True, evcond=False, params=True):
     """Second pass with its own random stream (the base charts stay what they were): content kinds and event names beyond the base
     generator - <foreach> over an integer array, <script> (lua), _event.name, nested <if>/<elseif>/<else>, transitions on error.* and
     done.state.<id> events."""
@@ -803,6 +807,15 @@ def decorate(ch, rng, errors=True, evcond=False):
         targets = [rng.choice(proper).id] if has_data and rng.random() < 0.5 else []
         content = [('log', L('E'), rex())] + ([('logev', L('V'))] if rng.random() < 0.5 else [])
         s.trans.insert(rng.randint(0, len(s.trans)), Tr(s, evs, None, targets, False, content))
+    if has_data and params and blocks and srcs:
+        # events that carry values: <send> with <param>s (several such elements per document), read by the transition they trigger
+        nsend = rng.choice([0, 1, 2, 2, 3])
+        for k in range(nsend):
+            evn = 'ep%d' % (k % 2 + 1)
+            vals = [('p1', rng.choice([('var', 'x'), ('add', ('var', 'y'), ('const', k + 1)), ('const', 7 + k)]))] + ([('p2', rng.choice([('var', 'y'), ('const', 3 + k)]))] if evn == 'ep1' else [])     # ep1 carries p1 and p2, ep2 only p1
+            put(rng.choice(blocks), [('if', [(('lt', ('var', 'b'), ('const', 5)), [('sendp', evn, vals), ('assign', 'b', ('add', ('var', 'b'), ('const', 1)))])], None)])
+            s = rng.choice(srcs)
+            s.trans.insert(rng.randint(0, len(s.trans)), Tr(s, [evn], None, [], False, [('log', L('P'), ('evdata', n)) for n, _ in vals]))
     if evcond and has_data:
         # an eventless transition whose condition looks at _event: it becomes enabled by an event that itself triggers nothing (App. D: the
         # eventless transitions are examined again after every event, before anything else is dequeued). Forward targets only (no loops).
@@ -868,6 +881,7 @@ def long_event_names(ch, hist, tail=70):
         out = []
         for x in a:
             if x[0] in ('raise', 'send', 'sendint'): out.append((x[0], rn(x[1])))
+            elif x[0] == 'sendp': out.append(('sendp', rn(x[1]), x[2]))
             elif x[0] == 'if': out.append(('if', [(c, acts(b)) for c, b in x[1]], acts(x[2]) if x[2] is not None else None))
             elif x[0] == 'foreach': out.append(x[:4] + (acts(x[4]),))
             else: out.append(x)
@@ -881,11 +895,11 @@ def long_event_names(ch, hist, tail=70):
     return [rn(e) for e in hist]
 
 
-def gen_chart(seed, rich=False, evcond=False, **kw):
+def gen_chart(seed, rich=False, evcond=False, params=True, **kw):
     rng = random.Random(seed)
     ch = Gen(rng, **kw).chart()
     hist = [rng.choice(EVENTS) for _ in range(rng.randint(1, 6))]
-    if rich: decorate(ch, random.Random(seed * 7919 + 13), errors=kw.get('errors', True), evcond=evcond)
+    if rich: decorate(ch, random.Random(seed * 7919 + 13), errors=kw.get('errors', True), evcond=evcond, params=params)
     return ch, hist
 
 
